@@ -2,7 +2,7 @@
 import re
 import t2t, corr, semrun, sem
 
-OBLIGATIONS = ['Yalafi.C03_kinds', 'Yalafi.C03_removeLines_kinds', 'Yalafi.C03_comments_dropped']
+OBLIGATIONS = ['Yalafi.C03_kinds', 'Yalafi.C03_removeLines_kinds']
 
 MARKUP = re.compile(r'\\[A-Za-z@]+')
 
@@ -88,8 +88,15 @@ def judge_witness(w):
     r = t2t.run_case(c)
     if r['outcome'] != 'ok':
         return []
+    fails = []
     m = MARKUP.search(r['txt'])
-    return ['control sequence %r left in the output' % m.group(0)] if m else []
+    if m:
+        fails.append('control sequence %r left in the output' % m.group(0))
+    if 'expect_words' in w:
+        got = [x for x, _ in semrun.out_words(r['txt'])]
+        if got != w['expect_words']:
+            fails.append('words %r, expected %r' % (got, w['expect_words']))
+    return fails
 
 def replay(data):
     v = data['violation']
